@@ -30,7 +30,7 @@ def cache_put(p, data):
     os.makedirs(CACHE, exist_ok=True)
     # keep the cache small: drop older entries of other trees
     files = sorted(glob.glob(os.path.join(CACHE, "*.json")), key=os.path.getmtime)
-    for f in files[:-12]:
+    for f in files[:-30]:
         try:
             os.remove(f)
         except OSError:
